@@ -1342,6 +1342,9 @@ pub fn simple_pattern_program(items: &[usize]) -> Program {
 /// Short programs around loops whose upper bound is (next to) u32::MAX: the same body looped twice, then
 /// concatenations, unions and outer loops of those loops (derivatives of such terms add and multiply the bounds)
 pub fn max_loop_program(rng: &mut Rng) -> Program {
+    if rng.chance(1, 3) {
+        return nested_loop_program(rng);
+    }
     let mut ops: Vec<Op> = Vec::new();
     let body = match rng.below(3) {
         0 => {
@@ -1392,6 +1395,37 @@ pub fn max_loop_program(rng: &mut Rng) -> Program {
         };
         ops.push(op);
         pool.push(ops.len() - 1);
+    }
+    Program { points: vec![0x61, 0x62, 0x63], ops }
+}
+
+/// Loops of loops whose bounds are next to 2^16 (their products are next to 2^32) or next to 2^8 / 2^4:
+/// (a^[0,65535] b)^[1,65536] and the like, plus one operator on top
+pub fn nested_loop_program(rng: &mut Rng) -> Program {
+    let mut ops: Vec<Op> = vec![Op::Char(0x61), Op::Char(0x62)];
+    let base: u32 = *rng.pick(&[1u32 << 16, 1 << 16, 1 << 8, 1 << 4, 46_341]);
+    let near = |rng: &mut Rng| -> u32 { (base as i64 + rng.below(3) as i64 - 1) as u32 };
+    let lo = |rng: &mut Rng| -> u32 { rng.below(3) as u32 };
+    // inner loop over a, followed (or not) by b
+    let (l, h) = (lo(rng), near(rng));
+    ops.push(if rng.chance(1, 2) { Op::SmtLoop(0, l, h) } else { Op::LoopFin(0, l, h) });
+    let mut inner = ops.len() - 1;
+    if rng.chance(2, 3) {
+        ops.push(Op::Concat(inner, 1));
+        inner = ops.len() - 1;
+    }
+    let (l2, h2) = (lo(rng), near(rng));
+    ops.push(match rng.below(3) {
+        0 => Op::SmtLoop(inner, l2, h2),
+        1 => Op::LoopFin(inner, l2, h2),
+        _ => Op::Exp(inner, h2),
+    });
+    let outer = ops.len() - 1;
+    match rng.below(4) {
+        0 => ops.push(Op::Concat(outer, 1)),
+        1 => ops.push(Op::Union(outer, 1)),
+        2 => ops.push(Op::Concat(0, outer)),
+        _ => {}
     }
     Program { points: vec![0x61, 0x62, 0x63], ops }
 }
